@@ -131,7 +131,7 @@ def alias_grid(ctx, shard):
         after = [fp(o) for o in owners if o is not None]
         # the part of a caller-owned buffer *outside* the slice that was passed must not change either
         if before != after:
-            ctx.violation('owner_buffer_modified', f'{label}: the caller-owned array behind a sliced argument changed',
+            ctx.violation('owner_buffer_modified', f'{label}: a caller-owned object reachable from the call (owner of a sliced argument, or handed to an earlier builder call) changed',
                           {'label': label, 'workload': 'alias_grid'}, function=label)
         ctx.event('alias_case')
         ctx.case(('alias', label), n=max(1, mm.judged - j0))
@@ -279,6 +279,30 @@ def alias_grid(ctx, shard):
                 call('save_cif([Block, Block])', lambda: cif.save_cif(io.StringIO(), [cif.Block('b1', [chunk]), cif.Block('b2', [loop])], comment='file'))
                 blk = cif.Block('b', [{'x.y': sc.scalar(1.5, variance=0.01, unit='m')}])
                 call('Block.write', lambda: cif.save_cif(io.StringIO(), blk))
+                # ---- SQW writer: caller-owned metadata already in canonical unit/dtype, every byte order
+                from scippneutron.io.sqw import EnergyMode, Sqw, SqwIXExperiment, SqwIXSample
+                npx = 5
+                for order in ('native', 'little', 'big'):
+                    exps = [SqwIXExperiment(
+                        run_id=r, efix=sc.scalar(1.5 + r, unit='meV'), emode=EnergyMode.direct,
+                        en=sc.array(dims=['energy_transfer'], values=[1.0, 2.5, 4.0], unit='meV'),
+                        psi=sc.scalar(0.3, unit='rad'), u=sc.vector([0.0, 1.0, 0.5]), v=sc.vector([1.0, 1.0, 0.0]),
+                        omega=sc.scalar(0.1, unit='rad'), dpsi=sc.scalar(0.2, unit='rad'), gl=sc.scalar(0.3, unit='rad'),
+                        gs=sc.scalar(-0.4, unit='rad'), filename=f'run{r}.nxspe', filepath='/data') for r in range(2)]
+                    pix = sc.DataArray(
+                        sc.array(dims=['obs'], values=rng.random(npx), variances=rng.random(npx), unit='count'),
+                        coords={**{f'u{i}': sc.array(dims=['obs'], values=rng.random(npx), unit='1/angstrom') for i in (1, 2, 3)},
+                                'u4': sc.array(dims=['obs'], values=rng.random(npx), unit='meV'),
+                                **{k: sc.array(dims=['obs'], values=np.arange(npx) % 2, unit=None, dtype='int64')
+                                   for k in ('idet', 'irun', 'ien')}})
+                    sample = SqwIXSample(name='s', lattice_spacing=sc.vector([2.0, 3.0, 4.0], unit='angstrom'),
+                                         lattice_angle=sc.vector([90.0, 90.0, 120.0], unit='deg'))
+
+                    def build_sqw(order=order, exps=exps, pix=pix, sample=sample):
+                        b = Sqw.build(io.BytesIO(), byteorder=order)
+                        b = b.add_pixel_data(pix, experiments=exps).add_default_sample(sample)
+                        b.create()
+                    call(f'SqwBuilder.create[{order}]', build_sqw, (exps, pix, sample))
                 # ---- convert with positions
                 cda = sc.DataArray(sc.ones(dims=['x', 'tof'], shape=[n, 4]), coords={
                     'tof': sc.linspace('tof', 1e3, 1e4, 4, unit='us'),
